@@ -131,11 +131,17 @@ def race(case, res):
                 call = rng.choice(["timerfd_create", "timerfd_settime"])
                 S.sim.inject(call, rng.choice([1, 1, 2]), rng.choice([E.EMFILE, E.ENFILE, E.ENOMEM]) if call == "timerfd_create" else E.EINVAL)
                 S.sig("race-timer-fault", call)
+            # the requests of one round may carry long ids that differ only at their very end (or only at the very front)
+            longids = rng.random() < 0.35
+            stem = "P" * rng.choice([40, 60, 61, 62, 63, 64, 70, 100])
             for i in range(k):
+                idv = AUTO if rng.random() < 0.85 else None
+                if longids:
+                    idv = "%s-%d-%d" % (stem, rnd, i) if rnd % 2 else "%d-%d-%s" % (rnd, i, stem)
                 if rng.random() < 0.6:
-                    ps.append(S.request(cal, "set", {"path": "r/s", "value": S.next_val(cal)}, idv=AUTO if rng.random() < 0.85 else None))
+                    ps.append(S.request(cal, "set", {"path": "r/s", "value": S.next_val(cal)}, idv=idv))
                 else:
-                    ps.append(S.request(cal, "call", {"path": "r/m", "args": [S.next_val(cal)]}))
+                    ps.append(S.request(cal, "call", {"path": "r/m", "args": [S.next_val(cal)]}, idv=idv if longids else AUTO))
             S.settle()
             ps = [p for p in ps if p.state == "forwarded"]
             if not ps:
